@@ -132,7 +132,8 @@ def choose_filters(rng, sc, want):
         return max(0, v + rng.choice([-1, 0, 0, 0, 1]))
 
     demux = want.get("demux")
-    if rng.random() < 0.6:
+    scale = want.get("filter_scale", 1.0)
+    if rng.random() < 0.6 * scale:
         v = lenval()
         s = str(v)
         if paired and rng.random() < 0.5:
@@ -142,7 +143,7 @@ def choose_filters(rng, sc, want):
         if rng.random() < 0.5:
             opts["too_short_out"] = True
             args += ["--too-short-output", "ts1.fq"] + (["--too-short-paired-output", "ts2.fq"] if two_files else [])
-    if rng.random() < 0.45:
+    if rng.random() < 0.45 * scale:
         v = lenval()
         s = str(v)
         if paired and rng.random() < 0.5:
@@ -152,21 +153,21 @@ def choose_filters(rng, sc, want):
         if rng.random() < 0.5:
             opts["too_long_out"] = True
             args += ["--too-long-output", "tl1.fq"] + (["--too-long-paired-output", "tl2.fq"] if two_files else [])
-    if rng.random() < 0.4:
+    if rng.random() < 0.4 * scale:
         ncounts = sorted({R.n_count(r["seq"]) for r in b1})
         v = rng.choice([str(rng.choice(ncounts)), "0", "1", "2", "0.1", "0.25", "0.5"])
         opts["max_n"] = v
         args += ["--max-n", v]
-    if rng.random() < 0.4:
+    if rng.random() < 0.4 * scale:
         q0 = [len(r["qual"]) for r in b1 if r["qual"] and set(r["qual"]) == {"!"}]
         v = str(rng.choice(q0)) if q0 and rng.random() < 0.6 else rng.choice(["0", "1", "2", "5", "10"])
         opts["max_ee"] = v
         args += ["--max-ee", v]
-    if rng.random() < 0.35:
+    if rng.random() < 0.35 * scale:
         v = rng.choice(["0.1", "0.5", "0.9", "0.01"])
         opts["max_aer"] = v
         args += ["--max-aer", v]
-    if rng.random() < 0.3:
+    if rng.random() < 0.3 * scale:
         opts["casava"] = True
         args += ["--discard-casava"]
     x = rng.random()
